@@ -151,6 +151,15 @@ PROPS["C09"] = {
     "level_note": XH_NOTE + TOPO_NOTE, "explanation": "atomic failure of topology operations", "assumptions": [],
 }
 
+PROPS["C02"] = {
+    "modules": ["harness.c02", "harness.c02g"], "level": "model_checking", "design_ref": "DESIGN.md 2/C02",
+    "level_text": "One harness per (sliver class, settable property) - the setter list is discovered at run time - builds the value from symbolic scalars, "
+                  "converts the sliver to graph properties / deep dictionary / JSON and back and compares the field through its own encoder; nesting shapes "
+                  "with symbolic counts; model-element set/get/unset on a real topology graph.",
+    "level_note": XH_NOTE + " Validated formats (addresses, tags, dates) come from small concrete pools; strings len<=2.",
+    "explanation": "sliver conversion round trips", "assumptions": [],
+}
+
 NOT_APPLICABLE = {
     "C01": "every value on the GraphML/JSON text path crosses expat/lxml/json C code and temp files, where a symbolic value is "
            "concretised; what remains would be concrete sampling, i.e. a different technique (store-level half is decided under C04/C20)",
